@@ -6,6 +6,7 @@ import (
 	"go/constant"
 	"go/token"
 	"go/types"
+	"math"
 	"strings"
 
 	"golang.org/x/tools/go/ssa"
@@ -1599,39 +1600,58 @@ func ruleClampFirst(c *Ctx, rule string) {
 		}
 		// every conversion is judged; the worst one is reported
 		upper, lower := true, true
+		looseBound := math.NaN()
 		var conv *ssa.Convert
 		for _, cv := range convs {
 			// the converted float is bounded: a phi with a constant edge, math.Min / math.Max with a
 			// constant, or a dominating comparison with a constant of a value it is derived from by
 			// adding constants and clamping (the sign test that chooses the half to add)
 			up, lo := false, false
-			derived := map[ssa.Value]bool{}
-			var walk func(v ssa.Value, d int)
-			walk = func(v ssa.Value, d int) {
-				if d > 5 || derived[v] {
+			// derived[v] = d: the converted value is v + d
+			derived := map[ssa.Value]float64{}
+			// the largest value an upper bound lets through, the smallest a lower bound does
+			worstUp, worstLo := math.Inf(-1), math.Inf(1)
+			noteUp := func(f float64) {
+				up = true
+				if f > worstUp {
+					worstUp = f
+				}
+			}
+			noteLo := func(f float64) {
+				lo = true
+				if f < worstLo {
+					worstLo = f
+				}
+			}
+			var walk func(v ssa.Value, d int, delta float64)
+			walk = func(v ssa.Value, d int, delta float64) {
+				if _, seen := derived[v]; d > 5 || seen {
 					return
 				}
-				derived[v] = true
+				derived[v] = delta
 				switch x := v.(type) {
 				case *ssa.Phi:
 					for _, e := range x.Edges {
 						if f, ok := constOf(e); ok {
-							if f > 0 && f <= 255 {
-								up = true
+							if f > 0 {
+								noteUp(f + delta)
 							}
-							if f < 0 && f >= -128 {
-								lo = true
+							if f < 0 {
+								noteLo(f + delta)
 							}
 							continue
 						}
-						walk(e, d+1)
+						walk(e, d+1, delta)
 					}
 				case *ssa.BinOp:
 					if x.Op == token.ADD || x.Op == token.SUB {
-						if _, ok := constOf(x.Y); ok {
-							walk(x.X, d+1)
-						} else if _, ok := constOf(x.X); ok && x.Op == token.ADD {
-							walk(x.Y, d+1)
+						if f, ok := constOf(x.Y); ok {
+							if x.Op == token.SUB {
+								f = -f
+							}
+							walk(x.X, d+1, delta+f)
+						} else if f, ok := constOf(x.X); ok && x.Op == token.ADD {
+							walk(x.Y, d+1, delta+f)
 						}
 					}
 				case *ssa.Call:
@@ -1641,41 +1661,57 @@ func ruleClampFirst(c *Ctx, rule string) {
 					}
 					for _, a := range x.Call.Args {
 						if f, ok := constOf(a); ok {
-							if g.Name() == "Min" && f <= 255 {
-								up = true
+							if g.Name() == "Min" {
+								noteUp(f + delta)
 							}
-							if g.Name() == "Max" && f >= -128 {
-								lo = true
+							if g.Name() == "Max" {
+								noteLo(f + delta)
 							}
 						} else if g.Name() == "Min" || g.Name() == "Max" {
-							walk(a, d+1)
+							walk(a, d+1, delta)
 						}
 					}
 				}
 			}
-			walk(cv.X, 0)
+			walk(cv.X, 0, 0)
 			for _, bf := range branchesAt(cv.Block()) {
 				var op token.Token
+				var k, delta float64
 				switch {
-				case derived[bf.cond.X]:
-					if _, ok := constOf(bf.cond.Y); !ok {
+				case hasKey(derived, bf.cond.X):
+					f, ok := constOf(bf.cond.Y)
+					if !ok {
 						continue
 					}
-					op = effectiveOp(bf, true)
-				case derived[bf.cond.Y]:
-					if _, ok := constOf(bf.cond.X); !ok {
+					op, k, delta = effectiveOp(bf, true), f, derived[bf.cond.X]
+				case hasKey(derived, bf.cond.Y):
+					f, ok := constOf(bf.cond.X)
+					if !ok {
 						continue
 					}
-					op = effectiveOp(bf, false)
+					op, k, delta = effectiveOp(bf, false), f, derived[bf.cond.Y]
 				default:
 					continue
 				}
 				switch op {
 				case token.LSS, token.LEQ:
-					up = true
+					noteUp(k + delta)
 				case token.GTR, token.GEQ:
-					lo = true
+					noteLo(k + delta)
 				}
+			}
+			// a bound that still lets a value through that the score type cannot hold (or, for the Phred
+			// score, 255 — the score of NaN) is no saturation
+			maxOK, minOK := 255.0, -129.0
+			if t.needLower {
+				maxOK = 128
+			}
+			if up && worstUp >= maxOK {
+				up = false
+				looseBound = worstUp
+			}
+			if lo && worstLo <= minOK {
+				lo = false
 			}
 			if !up || (t.needLower && !lo) || conv == nil {
 				conv = cv
@@ -1689,6 +1725,8 @@ func ruleClampFirst(c *Ctx, rule string) {
 			c.bad(rule, key, conv.Pos(), "the float score is saturated above but not below before it is converted to the signed one-byte score: for an error probability within about 2e-13 of 1 the analytic score is below -128 and the conversion wraps (or is implementation-defined), so the score returned is not the nearest representable one")
 		case t.needLower:
 			c.bad(rule, key, conv.Pos(), "the float score is converted to the signed one-byte score without being saturated: for an error probability within about 2e-13 of 0 or of 1 the analytic score lies outside -128..127 and the conversion wraps (or is implementation-defined) — Esolexa(0.9999999999999998) is 99 — so the score returned is not the nearest representable one and a smaller probability can get a smaller score")
+		case !math.IsNaN(looseBound):
+			c.bad(rule, key, conv.Pos(), fmt.Sprintf("the float handed to the conversion is only known to be at most %v: the test that saturates the score looks at it before the half is added (or compares with the wrong limit), so a score just under the limit rounds up to 255 — the score reserved for NaN — or wraps, instead of saturating at 254", looseBound))
 		default:
 			c.bad(rule, key, conv.Pos(), "the float score is converted to the one-byte score before it is saturated: values of 256 and more wrap (or are implementation-defined) in the conversion, so the later test can no longer see them and a tiny error probability is given a low score — a smaller probability then means a smaller score")
 		}
@@ -2025,4 +2063,9 @@ func ruleLocPairwise(c *Ctx, rule string) {
 	} else {
 		c.bad(rule, key, fn.Pos(), "no rejection compares the locations of two exons of the result: a check against a running reference that adopts the first non-nil location lets unlocated (or differently located) exons that come first slip through, so a foreign-location update replaces the previous exon set instead of being rejected")
 	}
+}
+
+func hasKey(m map[ssa.Value]float64, v ssa.Value) bool {
+	_, ok := m[v]
+	return ok
 }
